@@ -1,0 +1,27 @@
+//go:build verif
+
+package svg
+
+import "github.com/benoitkugler/webrender/matrix"
+
+// VerifAggregateTransform parses an SVG `transform` attribute and returns the
+// aggregated matrix, exactly as the drawing code computes it
+// (parseTransform + aggregateTransforms with unitless arguments).
+func VerifAggregateTransform(attr string) (matrix.Transform, int, error) {
+	trs, err := parseTransform(attr)
+	if err != nil {
+		return matrix.Transform{}, 0, err
+	}
+	return aggregateTransforms(trs, 16, 100), len(trs), nil
+}
+
+// VerifViewboxTransform exposes preserveAspectRatio.resolveTransforms
+// (without marker translation).
+func VerifViewboxTransform(par string, width, height Fl, hasViewbox bool, vb Rectangle) (sx, sy, tx, ty Fl) {
+	p := parsePreserveAspectRatio(par)
+	var ptr *Rectangle
+	if hasViewbox {
+		ptr = &vb
+	}
+	return p.resolveTransforms(width, height, ptr, nil)
+}
